@@ -284,6 +284,51 @@ def one_case(src, mexe, idx, seed, tier):
     return recipe, problems, stat
 
 
+def quota_extent_growth_case(src):
+    """quota + extents, 1k blocks: a 293-block file in one extent near the end of a 32M filesystem whose low groups have
+    200 one-block holes; shrinking to 8M moves the file into the holes, its extent tree grows by index/leaf blocks"""
+    img = os.path.join(WORK, "qeg.img")
+    T = lambda p_: os.path.join(src, p_)
+    env = e2v.tool_env(src, E2FSPROGS_FAKE_TIME="1700000000")
+    rr = e2v.rng(1, "c08qeg", 0)
+    one, big, filler = (os.path.join(WORK, "qeg_" + n) for n in ("one", "big", "filler"))
+    open(one, "wb").write(bytes(rr.getrandbits(8) for _ in range(1024)))
+    open(big, "wb").write(bytes(rr.getrandbits(8) for _ in range(300000)))
+    open(filler, "wb").write(b"x" * 14000000)
+    recipe = {"config": "ext4_quota_holes", "mke2fs": ["-t", "ext4", "-b", "1024", "-O", "quota,^resize_inode"], "start": "32M", "kind": "shrink", "args": ["8M"],
+              "case_index": -1, "directed": "quota_extent_growth"}
+    e2v.sh([T("misc/mke2fs"), "-q", "-F", "-t", "ext4", "-b", "1024", "-O", "quota,^resize_inode", "-E", "lazy_itable_init=0", img, "32M"], env=env, timeout=120)
+    cmds = ["write %s s%d" % (one, i) for i in range(1, 401)] + ["rm s%d" % i for i in range(1, 401, 2)] + ["write %s filler" % filler, "write %s big" % big, "rm filler"]
+    e2v.sh([T("debugfs/debugfs"), "-w", "-f", "-", img], input=("\n".join(cmds) + "\n").encode(), env=env, timeout=300)
+    e2v.sh([T("e2fsck/e2fsck"), "-fy", img], env=env, timeout=300)       # debugfs does not keep the quota files
+    for f in (one, big, filler):
+        os.unlink(f)
+    stat = {"kind": "shrink"}
+    if e2v.sh([T("e2fsck/e2fsck"), "-fn", img], env=env, timeout=300)[0] != 0:
+        os.unlink(img)
+        return recipe, [], dict(stat, outcome="setup not clean")
+    t0 = tree_of(img)
+    rc, out = e2v.sh([T("resize/resize2fs"), img, "8M"], env=env, timeout=600)
+    stat["rc"] = rc
+    problems = []
+    if rc == 0:
+        stat["outcome"] = "resized"
+        if tree_of(img) != t0:
+            problems.append("files changed")
+        rc2, out2 = e2v.sh([T("e2fsck/e2fsck"), "-fn", img], env=env, timeout=300)
+        if rc2 != 0:
+            qs = [l for l in out2.split("\n") if l.endswith("? no")]
+            only_quota = bool(qs) and all(l.startswith("Update quota info for quota type") for l in qs) and "[QUOTA WARNING] Usage inconsistent" in out2
+            m = re.search(r"actual \((\d+), (\d+)\) != expected \((\d+), (\d+)\)", out2)
+            if only_quota and m and m.group(2) == m.group(4) and int(m.group(1)) > int(m.group(3)):
+                recipe["only_quota_blocks_undercharged"] = True
+            problems.append("e2fsck -fn exits %d after a successful resize: %s" % (rc2, " | ".join(l for l in out2.split("\n") if "QUOTA" in l or l.endswith("? no"))[:300]))
+    else:
+        stat["outcome"] = "refused"
+    os.unlink(img)
+    return recipe, problems, stat
+
+
 def run(res, replay=None):
     tier, seed = res.tier, res.seed
     os.makedirs(WORK, exist_ok=True)
@@ -303,6 +348,8 @@ def run(res, replay=None):
     idxs = [json.load(open(replay))["recipe"]["case_index"]] if replay else list(range(n))
     with concurrent.futures.ThreadPoolExecutor(12) as ex:
         outs = list(ex.map(lambda i: one_case(src, mexe, i, seed, tier), idxs))
+    if not replay or idxs == [-1]:
+        outs = [o for o in outs if o[0].get("case_index") != -1] + [quota_extent_growth_case(src)]
     bad = []
     dist = {"outcome": {}, "kind": {}, "config": {}}
     crash = 0
@@ -324,8 +371,11 @@ def run(res, replay=None):
     res.add_obligation("geometry and protocol agree with the model on all runs", not any("model" in p for b in bad for p in b[1]))
 
     def sig(recipe, problems):
+        if recipe.get("directed") == "quota_extent_growth" and recipe.get("only_quota_blocks_undercharged") and len(problems) == 1:
+            return "c08:quota-not-charged-for-new-extent-blocks"
         return "c08:" + hashlib.sha256(json.dumps(recipe).encode()).hexdigest()[:12]
-    for recipe, problems, stat in bad[:3]:
+    bad.sort(key=lambda b: 1 if sig(b[0], b[1]).startswith("c08:quota-") else 0)
+    for recipe, problems, stat in bad[:3] + [b for b in bad[3:] if sig(b[0], b[1]).startswith("c08:quota-")]:
         res.violation("oracle", {"recipe": recipe, "problems": problems[:5], "stat": stat}, signature=sig(recipe, problems))
     if not pr["ok"] and not bad:
         res.violation("proof", {"theorem_file": "coq/theories/Properties_C08.v", "failed_at": pr["failed_at"],
